@@ -667,6 +667,21 @@ def rand_tick_schedule(rng, tree):
     return pre + [RENDER] + s
 
 
+def rand_pipeline_schedule(rng, futs):
+    """opcode 2: completions, polls of the handler / body and executor turns in any order
+    (completions first = complete before the app is rendered: it is rendered by the first poll)"""
+    fs = list(futs)
+    rng.shuffle(fs)
+    if fs and rng.random() < 0.25:
+        fs = fs[: rng.randrange(len(fs) + 1)]
+    s = []
+    for f in fs:
+        s += [rng.choice([P, P, TICK]) for _ in range(rng.choice([0, 0, 1, 1, 2, 3]))]
+        s.append(Cm(f))
+    s += [rng.choice([P, TICK]) for _ in range(rng.choice([0, 1, 2]))]
+    return s
+
+
 def rand_schedule(rng, futs):
     fs = list(futs)
     rng.shuffle(fs)
@@ -714,7 +729,7 @@ def item(mode, drive, tree, init, sched, kind, op=0):
     """mode: bit 0 out-of-order, bit 1 the `_branching` entry point, bit 2 a nonce is provided;
     drive 2 (new waker for every poll), branching and nonces are not in the model: oracle only"""
     return dict(case=C.norm([op, mode, drive, tree, init, sched]), kind=kind,
-                compare=comparable(tree) and mode < 2 and drive != 2)
+                compare=comparable(tree) and mode < 2 and drive != 2 and op == 0)
 
 
 def res_placement_ok(v, in_susp=False, top=True):
@@ -758,7 +773,7 @@ def valid_case(it):
     """generator preconditions (the shrinker keeps only candidates satisfying them)"""
     try:
         case = it["case"]
-        if len(case) != 6 or case[0] not in (0, 1) or case[1] not in range(8) or case[2] not in (0, 1, 2):
+        if len(case) != 6 or case[0] not in (0, 1, 2) or case[1] not in range(8) or case[2] not in (0, 1, 2):
             return False
         if case[1] & 4 and not case[1] & 1:
             return False      # a nonce only matters for the scripts of an out-of-order stream
@@ -771,6 +786,14 @@ def valid_case(it):
         ks = kinds_in(tree)
         if (ks & LEPTOS_KINDS) and (ks & {4, 5, 6, 7}):
             return False      # the harness' call-pattern views do not resolve their children
+        if case[0] == 2:
+            # the real response pipeline (from_app): any view, oracle only
+            if case[2] != 0 or case[4] != [] or it.get("compare", True):
+                return False
+            for e in case[5]:
+                if not (e in ([1], [2]) or (len(e) == 2 and e[0] == 0 and e[1] in futs)):
+                    return False
+            return True
         if case[0] == 1:
             # executor turns under the schedule's control: leptos components only, oracle only
             if case[2] != 0 or case[4] != [] or not (ks & LEPTOS_KINDS) or it.get("compare", True):
@@ -784,7 +807,7 @@ def valid_case(it):
         for e in case[5]:
             if not (e == [1] or (len(e) == 2 and e[0] == 0 and e[1] in futs)):
                 return False
-        return bool(it.get("compare", True)) == (comparable(tree) and case[1] < 2 and case[2] != 2)
+        return bool(it.get("compare", True)) == (comparable(tree) and case[1] < 2 and case[2] != 2)   # (op 0)
     except Exception:
         return False
 
@@ -909,6 +932,11 @@ def generate(rng, tier):
                 # executor turns controlled by the schedule
                 for s in tick_schedules(tree, rng, 60 if quick else None):
                     yield item(ooo, 0, tree, [], s, "tpl-ticks-" + ("ooo" if ooo else "io"), op=1)
+            # through the response pipeline of the integrations (ExtendResponse::from_app)
+            if not (ks & {5, 6, 7}):
+                for mode in [ooo] + ([ooo | 4] if ooo and (ks & NONCE_KINDS) and rng.random() < 0.5 else []):
+                    for _ in range(3 if quick else 30):
+                        yield item(mode, 0, tree, [], rand_pipeline_schedule(rng, futs), "tpl-pipeline-" + mode_name(mode), op=2)
             # the `_branching` entry points, and a nonce for the replacement scripts
             modes = [ooo | 2] + ([ooo | 4, ooo | 6] if ooo and (ks & NONCE_KINDS) else [])
             for mode in modes:
@@ -940,6 +968,8 @@ def generate(rng, tier):
         if fam.endswith("leptos") and (ks & LEPTOS_KINDS):
             for _ in range(reps):
                 yield item(mode, 0, tree, [], rand_tick_schedule(rng, tree), "rnd-ticks-%s" % mode_name(mode), op=1)
+        if rng.random() < 0.15 and not (ks & {5, 6, 7}):
+            yield item(mode, 0, tree, [], rand_pipeline_schedule(rng, futs), "rnd-pipeline-%s" % mode_name(mode), op=2)
 
 
 # ------------------------------------------------------------------ oracle
@@ -1151,6 +1181,7 @@ def check_timeline(case, events):
     order = completion_order(case)
     oi = 0
     doc = H.Doc()
+    doc.lenient = case[0] == 2     # the pipeline appends the <script>s that resolve resources
     seen_fallback = {}
     for e in events:
         if e[0] == 3:
@@ -1494,9 +1525,12 @@ def describe(it):
     names = {1: "poll", 2: "tick", 3: "create-resources", 4: "render"}
     ev = " ".join("done(f%d)" % e[1] if e[0] == 0 else names.get(e[0], "?") for e in case[5])
     return "%s stream, %s, view %s, complete before render %r, schedule: %s" % (
-        "out-of-order" if ooo else "in-order",
-        "executor turns in the schedule" if case[0] == 1 else ("executor drive" if drive else "literal drive"),
-        show_view(tree), init, ev)
+        ("out-of-order" if ooo else "in-order") + (" branching" if branching(case) else "")
+        + (" with a nonce" if with_nonce(case) else ""),
+        "response pipeline (from_app), executor turns in the schedule" if case[0] == 2 else
+        "executor turns in the schedule" if case[0] == 1 else
+        ("executor drive" if drive == 1 else "executor drive, new waker for every poll" if drive == 2 else "literal drive"),
+        show_view(case[3]), init, ev)
 
 
 def coverage_extra(results):
